@@ -38,6 +38,12 @@ def run(c, chk):
     from .. import parsermodel as _pm
     chk.rule('R13.12', 'every entry into a section body hands the current file name, line and error function to the section (the hand-over rules of C06 R6.5)')
     c06.section_handover(c, P(chk, {'R6.5': 'R13.12'}), _pm.ParserModel(c))
+    # R13.13: "never a lasting loss of include capacity": what limits includes is the stack depth, which the parse bracket restores
+    # (R13.6); any other counter or budget would have to be a mutable global under a reset discipline (rule R8.0 of C08)
+    if not isinstance(chk, report.SubCheck):
+        from . import c08 as _c08g
+        chk.rule('R13.13', 'no include budget survives a parse: neither unit has a mutable global outside the reset disciplines (rule R8.0 of C08)')
+        _c08g.classified_globals(c, chk, rid='R13.13', rid5='R13.13')
 
     # R13.11: an include is resolved through the search path every section borrows from the root: nothing that happens to a
     # section between two includes (replaced by a repeated title, removed) may release that list
